@@ -66,6 +66,7 @@ fn generate(prop: &str, seed: u64, thorough: bool) -> Option<Plan> {
         "C11model" => Some(scen_pw::gen_c11_model(seed, thorough)),
         "C11" => Some(scen_udp::gen_c11_system(seed, thorough)),
         "C12" => Some(scen_c12::gen_c12(seed, thorough)),
+        "C12wrap" => Some(scen_c12::gen_c12_wrap(seed, thorough)),
         "C13" => Some(scen_local::gen_c13(seed, thorough)),
         "C14" => Some(scen_c14::gen_c14(seed, thorough)),
         "C15" => Some(scen_c15::gen_c15(seed, thorough)),
